@@ -52,6 +52,14 @@ Copy(i, j) ==
     /\ insts' = [insts EXCEPT ![j] = [cls |-> insts[i].cls, m |-> [M(i) EXCEPT !.out = RetOut(NoRes)]]]
     /\ UNCHANGED classes
 
+\* a copy whose MODEL comes back without its state field (the model's own copy protocol says so): a machine of the same
+\* class, options, providers and user data that starts like a new one
+CopyReset(i, j, gv) ==
+    /\ Born(i) /\ Idle(M(i)) /\ ~Born(j) /\ OthersQuiet(i)
+    /\ insts' = [insts EXCEPT ![j] = [cls |-> insts[i].cls,
+                                      m |-> [DoNew(D(i), M(i).opt, "", M(i).provs, gv) EXCEPT !.tag = M(i).tag]]]
+    /\ UNCHANGED classes
+
 \* the same, taken by a callback of i in the middle of a transition (an undo / persistence hook): the copy is a machine
 \* at rest in whatever state the model shows at that moment - nothing of what i is in the middle of, nothing i has queued
 CopyBusy(i, c, j) ==
@@ -69,6 +77,8 @@ WriteSetter(i, v)   == Born(i) /\ OthersQuiet(i) /\ Idle(M(i)) /\ Upd(i, DoWrite
 WriteModel(i, v)    == Born(i) /\ OthersQuiet(i) /\ Idle(M(i)) /\ Upd(i, DoWriteModel(D(i), M(i), v))
 AddListener(i, p)   == Born(i) /\ OthersQuiet(i) /\ Idle(M(i)) /\ Upd(i, DoAddListener(D(i), M(i), p))
 SetTag(i, v)        == Born(i) /\ OthersQuiet(i) /\ Idle(M(i)) /\ Upd(i, DoSetTag(D(i), M(i), v))
+\* a call that the library refuses without touching anything (a declaration attempted on an instance's event handle)
+Refused(i)          == Born(i) /\ OthersQuiet(i) /\ Idle(M(i)) /\ Upd(i, [M(i) EXCEPT !.out = ExcOut(InvDef)])
 \* sm.add_listener(a, b, ...): several listeners in one call
 AddListeners(i, ps) == Born(i) /\ OthersQuiet(i) /\ Idle(M(i))
                        /\ Upd(i, [M(i) EXCEPT !.provs = @ \cup ps, !.out = RetOut(NoRes)])
